@@ -212,7 +212,11 @@ func (ms *Modules) resolveIdentities() []error {
 			if newValues[j].Name != newValues[k].Name {
 				return newValues[j].Name < newValues[k].Name
 			}
-			return newValues[j].modulePrefixedName() < newValues[k].modulePrefixedName()
+			if a, b := newValues[j].modulePrefixedName(), newValues[k].modulePrefixedName(); a != b {
+				return a < b
+			}
+			// The same identity of two loaded revisions of a module.
+			return newValues[j].dictionaryKey() < newValues[k].dictionaryKey()
 		})
 		i.Identity.Values = newValues
 	}
